@@ -1,4 +1,5 @@
 //@ fn canonical.rs query_string_to_normalized_map
+//@ hideutf8
 //@ props C08 C10 C12 C13 C17
 //@ ret res
 //@ replace 1 `query_string.split('&')` => `str_split_to_vec(query_string, '&')`
@@ -16,7 +17,7 @@
         res is Ok ==> forall|k: String| #[trigger] res->Ok_0@.contains_key(k) ==> res->Ok_0@[k]@.len() > 0, //# C08 name=value_lists_nonempty
         res is Ok ==> forall|k: String, i: int| res->Ok_0@.contains_key(k) && 0 <= i < res->Ok_0@[k]@.len() ==> well_escaped(str_bytes(#[trigger] res->Ok_0@[k]@[i]@)), //# C08 name=values_well_escaped
 //@ bodystart
-    proof { broadcast use axiom_string_key_model, axiom_map_updated_same_key; lemma_qmap_empty(); }
+    proof { broadcast use axiom_string_key_model, axiom_map_updated_same_key; lemma_qmap_empty(); lemma_str_empty(query_string@); lemma_empty_literal(); }
 //@ before 1 `for component in components`
     let ghost comps = split(query_string.spec_bytes(), 0x26);
     let ghost mut acc: Seq<Pair> = Seq::empty();
@@ -33,10 +34,10 @@
             forall|k: String, i: int| result@.contains_key(k) && 0 <= i < result@[k]@.len() ==> well_escaped(str_bytes(#[trigger] result@[k]@[i]@)),
         decreases components@.len() - vk_idx
 //@ after 1 `if component.is_empty() {`
-            proof { assert(comps[vk_idx - 1].len() == 0); }
+            proof { lemma_str_empty(component@); assert(comps[vk_idx - 1].len() == 0); }
 //@ before 1 `let parts: Vec<&str> = component.splitn(2, '=').collect();`
         let ghost idx = vk_idx - 1;
-        proof { reveal_strlit(""); assert(""@.len() == 0); assert(component.spec_bytes() == comps[idx]); }
+        proof { lemma_empty_literal(); lemma_str_empty(component@); assert(component.spec_bytes() == comps[idx]); }
 //@ before 1 `let norm_key = normalize_query_string_element(key)?;`
         proof {
             assert(key.spec_bytes() == split_first(comps[idx], 0x3d).0);
